@@ -24,7 +24,6 @@ import (
 	"verifharness/internal/fw"
 	"verifharness/internal/gen"
 	"verifharness/internal/prng"
-	"verifharness/internal/snap"
 )
 
 type env struct {
@@ -85,33 +84,68 @@ var matVariants = []string{"plain", "view", "transposed", "transposed-view"}
 
 // recvVec builds a receiver of dimension n; for "view" it is a slice of a
 // parent with one extra element in front and two behind.
-func (e *env) recvVec(variant string, n int) (ad.Vector, ad.Vector) {
+//
+// The second result snapshots the elements of the parent that lie outside the
+// view (nil for a receiver that is not a view): nothing a call on the view is
+// allowed to write.
+func (e *env) recvVec(variant string, n int) (ad.Vector, func() string) {
 	if variant == "plain" {
 		return e.vec(n), nil
 	}
 	p := e.vec(n + 3)
-	return p.Slice(1, n+1), p
+	outside := func() string {
+		var s string
+		if pn := fw.Call(func() {
+			for i := 0; i < p.Dim(); i++ {
+				if i < 1 || i > n {
+					s += fmt.Sprintf("[%d]=%v ", i, p.ConstAt(i).GetFloat64())
+				}
+			}
+		}); pn != nil {
+			return "unreadable:" + pn.Msg
+		}
+		return s
+	}
+	return p.Slice(1, n+1), outside
 }
 
-func (e *env) recvMat(variant string, r, c int) (ad.Matrix, ad.Matrix) {
+func (e *env) recvMat(variant string, r, c int) (ad.Matrix, func() string) {
+	outside := func(p ad.Matrix, vr, vc int) func() string {
+		return func() string {
+			var s string
+			if pn := fw.Call(func() {
+				pr, pc := p.Dims()
+				for i := 0; i < pr; i++ {
+					for j := 0; j < pc; j++ {
+						if i < 1 || i > vr || j < 1 || j > vc {
+							s += fmt.Sprintf("[%d,%d]=%v ", i, j, p.ConstAt(i, j).GetFloat64())
+						}
+					}
+				}
+			}); pn != nil {
+				return "unreadable:" + pn.Msg
+			}
+			return s
+		}
+	}
 	switch variant {
 	case "plain":
 		return e.mat(r, c), nil
 	case "view":
 		p := e.mat(r+3, c+3)
-		return p.Slice(1, r+1, 1, c+1), p
+		return p.Slice(1, r+1, 1, c+1), outside(p, r, c)
 	case "transposed":
 		return e.mat(c, r).T(), nil
 	default:
 		p := e.mat(c+3, r+3)
-		return p.Slice(1, c+1, 1, r+1).T(), p
+		return p.Slice(1, c+1, 1, r+1).T(), outside(p, c, r)
 	}
 }
 
 // alt is one concrete misuse call.
 type alt struct {
 	recv   any
-	parent any // ad.Vector / ad.Matrix the receiver is a view of (nil if none)
+	parent func() string // snapshot of the parent's elements outside the view (nil if the receiver is no view)
 	args   []any
 	note   string
 }
@@ -288,7 +322,11 @@ func vecGroups() []group {
 			case "valid":
 				return []alt{mk(pi)}
 			case "length-mismatch":
-				return []alt{mk(e.r.Perm(n - 1)), mk(e.r.Perm(n + 1))}
+				short := make([]int, n-1)
+				for i := range short {
+					short[i] = (i + 1) % (n - 1)
+				}
+				return []alt{mk(short), mk(append(e.r.Perm(n), 0))}
 			default:
 				q := append([]int(nil), pi...)
 				for i := range q {
@@ -426,7 +464,8 @@ func matGroups() []group {
 	sw := func(name string, row bool) group {
 		return group{Kind: "Matrix", Name: name, Methods: []string{name}, Classes: []string{"index<0", "index>=dim"}, Variants: matVariants,
 			Build: func(e *env, variant, class string, concrete bool) []alt {
-				r, c := e.r.Range(2, 4), e.r.Range(2, 4)
+				r := e.r.Range(2, 4)
+				c := r // the routine accepts square matrices only
 				lim := c
 				if row {
 					lim = r
@@ -453,10 +492,8 @@ func matGroups() []group {
 		}
 		return group{Kind: "Matrix", Name: name, Methods: []string{name}, Classes: classes, Variants: matVariants,
 			Build: func(e *env, variant, class string, concrete bool) []alt {
-				r, c := e.r.Range(3, 4), e.r.Range(3, 4)
-				if which == "sym" {
-					c = r
-				}
+				r := e.r.Range(3, 4)
+				c := r // the routines accept square matrices only
 				lim := r
 				if which == "cols" {
 					lim = c
@@ -469,7 +506,12 @@ func matGroups() []group {
 				case "valid":
 					return []alt{mk(r, c, e.r.Perm(lim))}
 				case "length-mismatch":
-					return []alt{mk(r, c, e.r.Perm(lim-1)), mk(r, c, e.r.Perm(lim+1))}
+					// shorter: a rotation of 0..lim-2; longer: a permutation of 0..lim-1 plus a surplus entry
+					short := make([]int, lim-1)
+					for i := range short {
+						short[i] = (i + 1) % (lim - 1)
+					}
+					return []alt{mk(r, c, short), mk(r, c, append(e.r.Perm(lim), 0))}
 				case "index-out-of-range":
 					q := e.r.Perm(lim)
 					for i := range q {
@@ -815,26 +857,6 @@ func loud(out []reflect.Value, p *fw.Panic) bool {
 	return false
 }
 
-func snapshotOf(x any) string {
-	switch v := x.(type) {
-	case ad.Vector:
-		var s string
-		p := fw.Call(func() { s = fmt.Sprint(snap.Vector(v).Values()) })
-		if p != nil {
-			return "unreadable:" + p.Msg
-		}
-		return s
-	case ad.Matrix:
-		var s string
-		p := fw.Call(func() { s = fmt.Sprint(snap.Matrix(v).Values()) })
-		if p != nil {
-			return "unreadable:" + p.Msg
-		}
-		return s
-	}
-	return ""
-}
-
 func describeResult(out []reflect.Value) string {
 	var parts []string
 	for _, o := range out {
@@ -893,7 +915,15 @@ func runGroupCase(cs *fw.Case, g group, storage, label, class string) {
 				e := &env{r: cs.R, t: t, storage: storage}
 				conc := isConcrete(method)
 				// admissible baseline first: the spec of the group must describe a valid call
-				base := g.Build(e, variant, "valid", conc)
+				var base, alts []alt
+				if pb := fw.Call(func() {
+					base = g.Build(e, variant, "valid", conc)
+					alts = g.Build(e, variant, class, conc)
+				}); pb != nil {
+					// the receiver variant itself cannot be constructed (e.g. T() of a sliced sparse matrix): not a misuse matter
+					cs.Cover(fmt.Sprintf("receiver-construction-panicked:%s/%s/%s", g.Kind, label, variant))
+					continue
+				}
 				m, mname, ok := resolve(base[0].recv, method)
 				if !ok {
 					continue
@@ -912,9 +942,12 @@ func runGroupCase(cs *fw.Case, g group, storage, label, class string) {
 					exists[mname] = map[string]bool{}
 				}
 				exists[mname][t.Name+"/"+variant] = true
-				for _, a := range g.Build(e, variant, class, conc) {
+				for _, a := range alts {
 					m, _, _ := resolve(a.recv, method)
-					before := snapshotOf(a.parent)
+					before := ""
+					if a.parent != nil {
+						before = a.parent()
+					}
 					out, p, ok := invoke(m, a.args)
 					if !ok {
 						continue
@@ -930,9 +963,9 @@ func runGroupCase(cs *fw.Case, g group, storage, label, class string) {
 						note += " (" + d + ")"
 					}
 					if a.parent != nil {
-						if after := snapshotOf(a.parent); after != before {
-							kind = "returned,parent-of-view-modified"
-							note += fmt.Sprintf("; parent of the view before %s after %s", before, after)
+						if after := a.parent(); after != before {
+							kind = "returned,parent-modified-outside-view"
+							note += fmt.Sprintf("; parent elements outside the view before: %s after: %s", before, after)
 						}
 					}
 					silent = append(silent, silentObs{mname, t.Name, variant, kind, note})
@@ -947,66 +980,122 @@ func runGroupCase(cs *fw.Case, g group, storage, label, class string) {
 	if len(silent) == 0 {
 		return
 	}
-	// ---- fold: methods with the same (type, variant, kind) set are reported together
-	perMethod := map[string][]string{}
+	// ---- fold ---------------------------------------------------------------
+	// A method is "full" when every (type, receiver variant) cell in which it exists accepted
+	// the misuse with the same failure kind.  Full methods of one kind are reported together
+	// (one missing guard in a template = one signature); the others one by one with their cells.
+	mlabel := func(m string) string {
+		if strings.HasPrefix(m, "To") && strings.HasSuffix(m, "Matrix") {
+			return "To<T>Matrix"
+		}
+		return m
+	}
+	cells := map[string]map[string]string{} // method label -> type/variant -> kind
 	notes := map[string]string{}
 	for _, s := range silent {
-		perMethod[s.method] = append(perMethod[s.method], s.typ+"/"+s.variant+"/"+s.kind)
-		if _, ok := notes[s.method]; !ok {
-			notes[s.method] = fmt.Sprintf("%s %s (%s receiver): %s", s.typ, s.method, s.variant, s.note)
+		l := mlabel(s.method)
+		if cells[l] == nil {
+			cells[l] = map[string]string{}
+		}
+		cells[l][s.typ+"/"+s.variant] = s.kind
+		if _, ok := notes[l]; !ok {
+			notes[l] = fmt.Sprintf("%s %s (%s receiver): %s", s.typ, s.method, s.variant, s.note)
 		}
 	}
-	byKey := map[string][]string{}
-	for m, l := range perMethod {
-		sort.Strings(l)
-		k := strings.Join(l, " ")
-		byKey[k] = append(byKey[k], m)
+	appl := map[string]map[string]bool{}
+	for m, tv := range exists {
+		l := mlabel(m)
+		if appl[l] == nil {
+			appl[l] = map[string]bool{}
+		}
+		for k := range tv {
+			appl[l][k] = true
+		}
 	}
-	var keys []string
-	for k := range byKey {
-		keys = append(keys, k)
+	// per method: silent types T', silent variants V', kind; foldable if the silent cells are
+	// exactly (T' x V') restricted to the cells where the method exists
+	type status struct {
+		key     string
+		product bool
 	}
-	sort.Strings(keys)
-	for _, k := range keys {
-		methods := byKey[k]
+	groups := map[string][]string{}
+	var raw []string
+	for l, c := range cells {
+		T, V, K := set{}, set{}, set{}
+		for tv, k := range c {
+			p := strings.SplitN(tv, "/", 2)
+			T.add(p[0])
+			V.add(p[1])
+			K.add(k)
+		}
+		applT := set{}
+		want := 0
+		for tv := range appl[l] {
+			p := strings.SplitN(tv, "/", 2)
+			applT.add(p[0])
+			if T[p[0]] && V[p[1]] {
+				want++
+			}
+		}
+		if len(K) != 1 || want != len(c) {
+			raw = append(raw, l)
+			continue
+		}
+		tl := "ALL"
+		if len(T) != len(applT) {
+			tl = strings.Join(T.sorted(), "+")
+		}
+		key := strings.Join(V.sorted(), "+") + "|" + K.sorted()[0] + "|" + tl
+		groups[key] = append(groups[key], l)
+	}
+	emit := func(methods []string, foldable bool) {
 		sort.Strings(methods)
-		obs := strings.Split(k, " ")
-		types, variants, kinds := set{}, set{}, set{}
-		for _, o := range obs {
-			p := strings.SplitN(o, "/", 3)
-			types.add(p[0])
-			variants.add(p[1])
-			kinds.add(p[2])
-		}
-		// applicable universe of this method set
-		applT, applV := set{}, set{}
+		types, variants, kinds, applT, applV := set{}, set{}, set{}, set{}, set{}
+		var obsl []string
 		for _, m := range methods {
-			for tv := range exists[m] {
+			for tv, k := range cells[m] {
+				p := strings.SplitN(tv, "/", 2)
+				types.add(p[0])
+				variants.add(p[1])
+				kinds.add(k)
+				obsl = append(obsl, m+":"+tv+"/"+k)
+			}
+			for tv := range appl[m] {
 				p := strings.SplitN(tv, "/", 2)
 				applT.add(p[0])
 				applV.add(p[1])
 			}
 		}
-		product := len(obs) == len(types)*len(variants)
-		var tl, vl string
-		if product {
-			tl = foldTypes(types, applT)
-			vl = foldSet("recv", variants, applV)
-		} else {
-			tl = "cells=" + strings.Join(obs, "+")
-		}
+		sort.Strings(obsl)
 		ml := "methods=" + strings.Join(methods, "+")
-		if len(methods) == len(exists) && len(methods) > 1 {
+		if len(methods) == len(appl) && len(methods) > 1 {
 			ml = "methods=all"
 		}
-		kind := strings.Join(kinds.sorted(), "+")
-		cfg := label + ";" + ml + ";" + tl
-		if vl != "" {
-			cfg += ";" + vl
+		cfg := label + ";" + ml
+		if foldable {
+			cfg += ";" + foldTypes(types, applT)
+			if v := foldSet("recv", variants, applV); v != "" {
+				cfg += ";" + v
+			}
+		} else {
+			cfg += ";cells=" + strings.Join(obsl, "+")
 		}
+		kind := strings.Join(kinds.sorted(), "+")
 		sig := fmt.Sprintf("C20|silent|%s.%s|%s|%s|%s", g.Kind, g.Name, cfg, class, kind)
-		cs.Violation(sig, fmt.Sprintf("misuse accepted silently (no panic, no error). First observation: %s. All observations (type/receiver/kind): %s",
-			notes[methods[0]], k), map[string]any{"group": g.Kind + "." + g.Name, "storage": label, "class": class, "methods": methods, "observations": obs})
+		cs.Violation(sig, fmt.Sprintf("misuse accepted silently (no panic, no error). First observation: %s. All observations (method:type/receiver/kind): %s",
+			notes[methods[0]], strings.Join(obsl, " ")), map[string]any{"group": g.Kind + "." + g.Name, "storage": label, "class": class, "methods": methods, "observations": obsl})
+	}
+	var keys []string
+	for k := range groups {
+		keys = append(keys, k)
+	}
+	sort.Strings(keys)
+	for _, k := range keys {
+		emit(groups[k], true)
+	}
+	sort.Strings(raw)
+	for _, m := range raw {
+		emit([]string{m}, false)
 	}
 }
 
@@ -1070,9 +1159,12 @@ func misuseCells() []cell {
 
 func runMisuse(c *fw.Ctx) {
 	cells := misuseCells()
-	reps := c.N(3, 40)
+	reps := c.N(4, 40)
 	c.Cases("silent.containers", reps*len(cells), func(cs *fw.Case) {
 		cl := cells[cs.Index%len(cells)]
+		if cs.Index < len(cells) {
+			cs.R = prng.For(20261003, "silent.containers", cs.Index) // first pass independent of VERIF_SEED
+		}
 		st := cl.storage
 		if st == "scalar" {
 			st = gen.Dense
